@@ -394,7 +394,7 @@ func rulesC03(w *World, o *Out) {
 		authGuard := hasAuthorityGuard(w, h) || authorityGuardViaHelper(w, h)
 		isGov := strings.HasSuffix(rn, "Proposal") || strings.HasSuffix(rn, "UpdateParams") || hasMethod(e.Req, "GetAuthority")
 		if isGov {
-			o.Check("C03.R4", e.Name+"|authority guard", authGuard && (authorityGuardRefuses(w, h) || authorityGuardViaHelper(w, h)), w.Pos(h.Pos()), "a governance handler must return an error unless a request field equals the keeper's authority")
+			o.Check("C03.R4", e.Name+"|authority guard", authGuard && (authorityGuardRefuses(w, h) || authorityGuardViaHelper(w, h) || authorityGuardByFacts(h)), w.Pos(h.Pos()), "a governance handler must return an error unless a request field equals the keeper's authority")
 		}
 		vb := w.methodFn(e.Req, "ValidateBasic")
 		ids := identityFields(w, fl, h, 4)
